@@ -263,6 +263,12 @@ def iterate_chunks(shape, chunk_shape=None, n_max=None):
     if np.prod(shape) == 0:
         return
 
+    # A zero-dimensional array has a single element, which can be accessed
+    # with an empty tuple
+    if len(shape) == 0:
+        yield ()
+        return
+
     if chunk_shape is None and n_max is None:
         raise ValueError('Either chunk_shape or n_max should be specified')
     elif chunk_shape is not None and n_max is not None:
